@@ -63,9 +63,10 @@ func runC03(t *core.Tape, st *core.Stats) *core.Violation {
 	var pool []*world.ResSpec // everything included or tried so far
 
 	ncalls := 0
-	stop := t.Range(2, 12)
+	maxOps := t.Bound(12, 40)
+	stop := t.Range(2, maxOps)
 
-	for i := 0; i < 12 && t.More(stop); i++ {
+	for i := 0; i < maxOps && t.More(stop); i++ {
 		var (
 			rs   *world.ResSpec
 			what string
